@@ -41,7 +41,7 @@ meta["demo_output_patched"] = out[-800:]
 def run_check(p):
     ev = tempfile.mkdtemp(prefix="spdxseedev.")
     shutil.copy("/verif/known_findings.json", ev)
-    rc, out = sh(f"/verif/bin/spdxverif check -property {p} -repo {d}/repo -verif {ev}", timeout=1200)
+    rc, out = sh(os.environ.get("SPDXVERIF_BIN", "/verif/bin/spdxverif") + f" check -property {p} -repo {d}/repo -verif {ev}", timeout=2400)
     shutil.rmtree(ev)
     first = [l.strip() for l in out.split("\n") if l.strip().startswith(("violated", "undecided"))]
     return p, rc, first[:3]
